@@ -2,5 +2,7 @@ import EdzedModel.Basic.Val
 import EdzedModel.Counter
 import EdzedModel.Drv.Counter
 import EdzedModel.Drv.Simulate
+import EdzedModel.Drv.TimeUnits
 import EdzedModel.Gen.Constants
 import EdzedModel.Simulate
+import EdzedModel.TimeUnits
